@@ -82,6 +82,12 @@ def _mk_classes():
             self.z = z
     ns['S3'] = [A, B]
 
+    class B(A):     # noqa: F811  - another subclass of the SAME base object, with the same name
+        def __init__(self, x: int, w: int) -> None:
+            super().__init__(x)
+            self.w = w
+    ns['S3b'] = [A, B]
+
     class Col(enum.Enum):
         red = 1
         yes = 2
@@ -145,22 +151,23 @@ def _mk_classes():
 
 
 SETS = _mk_classes()
-ROOT = {'S1': SETS['S1'][0], 'S2': SETS['S2'][0], 'S3': SETS['S3'][0], 'SX': SETS['SX'][0], 'SP': SETS['SP'][0],
+ROOT = {'S1': SETS['S1'][0], 'S2': SETS['S2'][0], 'S3': SETS['S3'][0], 'S3b': SETS['S3b'][0], 'SX': SETS['SX'][0], 'SP': SETS['SP'][0],
         'S4': SETS['S4'][0]}
 # dump functions: name -> classes registered
 DUMPERS = collections.OrderedDict([('S1', SETS['S1']), ('S2', SETS['S2']), ('S3', SETS['S3']), ('S4a', SETS['S4'][:1]),
                                    ('S4b', SETS['S4'])])
 DOCS = collections.OrderedDict([
     ('v1', '{x: 1}'), ('v2', '{x: a}'), ('tA', '!A {x: 1}'), ('tB', '!B {x: 1, z: 2}'), ('bad', '{q: 1}'), ('err', '{x: 1'),
-    ('l1', '[{x: 1}]'), ('d1', '{k: 1}'),
+    ('l1', '[{x: 1}]'), ('d1', '{k: 1}'), ('b2', '{x: 1, w: 2}'),
 ])
 # load functions: name -> (class set, result type); several share a class set (or have none) and differ in the result type
 LOADERS = collections.OrderedDict([
     ('S1', ('S1', None)), ('S2', ('S2', None)), ('S3', ('S3', None)), ('ANY', (None, None)),
     ('S1L', ('S1', 'list')), ('S1O', ('S1', 'opt')), ('DICT', (None, 'dict')), ('STRS', (None, 'strs')),
+    ('S3b', ('S3b', None)),
 ])
 LOADER_DOCS = {'S1': ['v1', 'v2', 'tA', 'tB', 'bad', 'err'], 'S2': ['v1', 'v2', 'tA', 'tB', 'bad', 'err'],
-               'S3': ['v1', 'v2', 'tA', 'tB', 'bad', 'err'], 'ANY': ['v1', 'v2', 'tA', 'tB', 'bad', 'err'],
+               'S3': ['v1', 'v2', 'tA', 'tB', 'bad', 'err', 'b2'], 'S3b': ['v1', 'tB', 'b2'], 'ANY': ['v1', 'v2', 'tA', 'tB', 'bad', 'err'],
                'S1L': ['l1', 'v1', 'err'], 'S1O': ['v1', 'l1', 'bad'], 'DICT': ['d1', 'v1', 'l1'], 'STRS': ['l1', 'd1', 'v2']}
 
 
@@ -310,6 +317,10 @@ def run_history(hist):
 PRISTINE_FP = None
 
 
+def _run_one(hist):
+    return history.in_child(run_history, list(hist))
+
+
 def _expand(hist):
     """pool worker: run hist + op in a fresh child for every enabled op"""
     created = {(op[0][2], op[1]) for op in hist if op[0].startswith('mk')}
@@ -387,6 +398,37 @@ def explore_histories(tier, res):
                             res.sample({'history': [list(o) for o in h2], 'outcomes': outs}, 2)
             res.extra['frontier_level_%d' % level] = len(nxt)
             frontier = nxt
+    # cross-function histories of length four: use one function, then create and use another one whose classes have the
+    # same names or share a base class object with the first (every pair of such functions, every pair of their calls)
+    related = [('L', 'S3', 'S3b'), ('L', 'S3b', 'S3'), ('L', 'S1', 'S2'), ('L', 'S2', 'S1'), ('L', 'S1', 'S3'), ('L', 'S3', 'S1'),
+               ('D', 'S1', 'S2'), ('D', 'S2', 'S1'), ('D', 'S4a', 'S4b'), ('D', 'S4b', 'S4a'), ('J', 'S1', 'S2'), ('J', 'S3', 'S1')]
+    cross = []
+    for kind, fa, fb in related:
+        for o1 in [o for o in CALL_OPS if o[0] == kind and o[1] == fa]:
+            for o2 in [o for o in CALL_OPS if o[0] == kind and o[1] == fb]:
+                cross.append((creator_of(o1), o1, creator_of(o2), o2))
+    ctx = multiprocessing.get_context('fork')
+    with ctx.Pool(core.NPROC) as pool:
+        for h4, (st, r) in zip(cross, pool.imap(_run_one, cross, chunksize=4)):
+            res.transitions += 1
+            res.traces += 1
+            res.nontrivial += 1
+            pl = {'kind': 'history', 'history': [list(o) for o in h4]}
+            if st != 'ok':
+                res.violation('C11:history:child-died', 'history %s: %s' % (list(h4), str(r)[:300]), pl)
+                continue
+            outs, fp, pr, snap = r
+            for i in (1, 3):
+                if outs[i] != minimal[h4[i]]:
+                    res.violation('C11:history:result-depends-on-history:%s' % h4[i][0],
+                                  'in the history %s the call %s gives %s; in its minimal history it gives %s' % (
+                                      list(h4), h4[i], outs[i][:200], minimal[h4[i]][:200]), pl)
+                    break
+            else:
+                if pr != probes0 or snap != snap0:
+                    res.violation('C11:history:pyyaml-or-classes-changed', 'after %s' % (list(h4),), pl)
+                else:
+                    res.hist['cross-function-histories-ok'] += 1
     res.hist['history-states'] = len(seen)
     res.extra['history_depth'] = depth
 
